@@ -16,6 +16,8 @@ import (
 	"github.com/holiman/uint256"
 	"github.com/indexsupply/shovel/dig"
 	"github.com/indexsupply/shovel/eth"
+	"github.com/indexsupply/shovel/shovel"
+	"github.com/indexsupply/shovel/shovel/config"
 	"github.com/indexsupply/shovel/wpg"
 	"github.com/jackc/pgx/v5"
 	"github.com/jackc/pgx/v5/pgconn"
@@ -68,7 +70,7 @@ func init() {
 			m := map[string]int64{
 				"decodes": 24000, "decodes_rows_ge2": 4000, "decodes_sibling_arrays": 300, "decodes_nested_array_selected": 300,
 				"decodes_tuple_array_selected": 300, "decodes_with_empty_selected_array": 300, "decodes_k_ge10": 1000, "decodes_array_of_dynamic": 1000,
-				"reused_results": 2000, "insert_path_logs": 150, "insert_path_rows": 300, "catalogue_entries": 50, "cells_compared": 100000,
+				"reused_results": 2000, "insert_path_logs": 150, "insert_path_rows": 300, "wired_two_task_runs": 30, "catalogue_entries": 50, "cells_compared": 100000,
 			}
 			if tier == "thorough" {
 				for k, v := range m {
@@ -529,6 +531,9 @@ func c09Run(c *vk.Case) {
 		}
 		if viaInsert && !declFailed {
 			c09Insert(c, d, okVals)
+			if len(okVals) >= 2 && len(d.leaves) > 0 && c.R.Chance(1, 3) {
+				c09Wired(c, d, okVals)
+			}
 		}
 	}
 	c.Evals(decodes)
@@ -861,6 +866,141 @@ func c09Insert(c *vk.Case, d *abiDecl, valSets [][]any) {
 				c.Violate("insert:row-order", det, "Insert of %s: row %d carries log_idx=%v abi_idx=%v, want %d/%d", d.describe(), i, got[len(d.leaves)], got[len(d.leaves)+1], w.log, w.abi)
 				return
 			}
+		}
+	}
+}
+
+// c09Wired drives the decoder the way the service wires it: the destinations
+// of two tasks of one integration (one task per source) come from
+// shovel.NewDestination with the same configuration and insert their own logs
+// at the same time; each must copy exactly the rows of its own logs.
+type c09ExpRow struct {
+	log, abi int
+	cells    [][]byte
+}
+
+func c09Blocks(r *vk.RNG, d *abiDecl, valSets [][]any, num uint64) (blocks []eth.Block, want []c09ExpRow) {
+	sig := refmodel.Keccak256([]byte(refmodel.EventSignature(d.name, d.fields)))
+	topics := []eth.Bytes{eth.Bytes(sig)}
+	for _, f := range d.fields {
+		if f.Indexed {
+			topics = append(topics, eth.Bytes(r.Bytes(32)))
+		}
+	}
+	blocks = make([]eth.Block, 1)
+	blocks[0].Header.Number = eth.Uint64(num)
+	blocks[0].Header.Hash = eth.Bytes(r.Bytes(32))
+	blocks[0].Txs = make([]eth.Tx, 1)
+	tx := &blocks[0].Txs[0]
+	tx.PrecompHash = eth.Bytes(r.Bytes(32))
+	for li, vals := range valSets {
+		data := refmodel.EncodeTuple(d.fields, vals)
+		if len(data) == 0 {
+			return nil, nil
+		}
+		tx.Logs = append(tx.Logs, eth.Log{Idx: eth.Uint64(li), Address: eth.Bytes(r.Bytes(20)), Topics: topics, Data: eth.Bytes(exactCopy(data))})
+		for ai, row := range refmodel.ExpectedRows(d.fields, vals) {
+			want = append(want, c09ExpRow{log: li, abi: ai, cells: row})
+		}
+	}
+	return blocks, want
+}
+
+func c09RowsDiffer(d *abiDecl, rows [][]any, want []c09ExpRow) string {
+	if len(rows) != len(want) {
+		return fmt.Sprintf("copied %d rows, want %d", len(rows), len(want))
+	}
+	for i, w := range want {
+		got := rows[i]
+		if len(got) < len(d.leaves) {
+			return fmt.Sprintf("row %d has %d values", i, len(got))
+		}
+		for j, lf := range d.leaves {
+			if ok, _ := c09CellMatches(lf.Leaf, lf.Field.Type.IsArray(), got[j], w.cells[j]); !ok {
+				return fmt.Sprintf("row %d column %d (%s) = %T %v, want bytes %x", i, j, lf.Field.Type.Canonical(), got[j], got[j], w.cells[j])
+			}
+		}
+	}
+	return ""
+}
+
+func c09Wired(c *vk.Case, d *abiDecl, valSets [][]any) {
+	tbl := wpg.Table{Name: "t_wired"}
+	var walk func(fs []refmodel.Field)
+	walk = func(fs []refmodel.Field) {
+		for _, f := range fs {
+			b := f.Type.Base()
+			if b.Kind == refmodel.KTuple {
+				walk(b.Fields)
+				continue
+			}
+			if f.Column != "" {
+				tbl.Columns = append(tbl.Columns, wpg.Column{Name: f.Column, Type: pgTypeOf(b)})
+			}
+		}
+	}
+	walk(d.fields)
+	cfg := config.Integration{Name: "ig_abi", Enabled: true, Table: tbl, Event: d.ev}
+	half := len(valSets) / 2
+	sets := [2][][]any{valSets[:half], valSets[half:]}
+	var (
+		dests  [2]shovel.Destination
+		blocks [2][]eth.Block
+		want   [2][]c09ExpRow
+	)
+	for i := range dests {
+		dest, err := shovel.NewDestination(cfg)
+		if err != nil {
+			c.Violate("wired:NewDestination-failed", map[string]any{"declaration": d.describe(), "err": err.Error()}, "shovel.NewDestination failed for %s: %v", d.describe(), err)
+			return
+		}
+		dests[i] = dest
+		blocks[i], want[i] = c09Blocks(c.R, d, sets[i], uint64(100+i))
+		if blocks[i] == nil {
+			return
+		}
+	}
+	const iters = 40
+	var (
+		wg    sync.WaitGroup
+		diffs [2]string
+		pans  [2]*panicInfo
+	)
+	for i := range dests {
+		i := i
+		wg.Add(1)
+		go func() {
+			defer wg.Done()
+			defer func() {
+				if r := recover(); r != nil {
+					pans[i] = capturePanic(r)
+				}
+			}()
+			for k := 0; k < iters && diffs[i] == ""; k++ {
+				rc := &recConn{}
+				if _, err := dests[i].Insert(context.Background(), &sync.Mutex{}, rc, blocks[i]); err != nil {
+					diffs[i] = "Insert failed: " + err.Error()
+					return
+				}
+				diffs[i] = c09RowsDiffer(d, rc.rows, want[i])
+			}
+		}()
+	}
+	wg.Wait()
+	c.Obs("wired_two_task_runs", 1)
+	c.Obs("wired_concurrent_inserts", 2*iters)
+	for i := range dests {
+		det := map[string]any{"declaration": d.describe(), "task": i, "logs_of_this_task": len(sets[i]), "logs_of_the_other_task": len(sets[1-i])}
+		if pans[i] != nil {
+			det["panic"] = pans[i]
+			c.Violate(pans[i].key()+":wired-two-tasks", det, "Insert of one of two tasks of integration %s panicked while the other task inserted: %s", d.describe(), pans[i].Val)
+			return
+		}
+		if diffs[i] != "" {
+			det["difference"] = diffs[i]
+			c.Violate("wired:rows-of-one-task-differ-while-another-task-of-the-integration-inserts", det,
+				"two destinations from shovel.NewDestination for %s inserted at the same time; task %d: %s", d.describe(), i, diffs[i])
+			return
 		}
 	}
 }
